@@ -116,6 +116,18 @@ CHECKS = {
              "return every motif in file order with the written probabilities.",
         note="Signal values are small integers (exact in float32); if no locus survives the function raises (numpy.stack of nothing), "
              "accepted only when no locus lies strictly inside."),
+    "C17": dict(
+        technique="property-based testing (Hypothesis): validity predicate over the returned loci against an eligibility model computed from the generated genome and signal + n_jobs metamorphic relation",
+        category="exploration", design_ref="DESIGN.md §3 C17",
+        text="Synthetic genomes of in_window-sized blocks with prescribed GC fraction (incl. 0 and 1), N stretches and an unaligned tail, "
+             "random input loci (aligned and unaligned), in_window 50-500, out_window <= in_window incl. equal, bin widths 0.01-0.1, "
+             "max_n_perc 0-0.5, optional integer bigWig with signal_beta, chroms and seeds. Every returned row must be an aligned tile "
+             "inside its chromosome, unique, untouched by any input locus, within the N and signal limits; the total may not exceed the "
+             "usable inputs, every GC bin is bounded by min(inputs, eligible) and eligible, inputs stay unmatched only when the eligible "
+             "background is exhausted, and the frame must not depend on n_jobs.",
+        note="Many outputs are valid, so a validity predicate (not one expected answer) is checked; tiles with ambiguous eligibility "
+             "(aligned locus end, signal equal to the threshold) widen the bounds; exceptions on valid input (e.g. bin width 0.06 with a "
+             "GC=1.0 tile indexes past the count arrays) are counted as rejected_by_sut because the statement constrains returned loci."),
     "C18": dict(
         technique="property-based testing (Hypothesis) against brute-force Python counting + exhaustive k-mer enumeration",
         category="exploration", design_ref="DESIGN.md §3 C18",
